@@ -1,8 +1,8 @@
 INIT GenInit
 NEXT GenNext
 CONSTANTS
-  KL = 50
-  KS = 10
+  KL = 16
+  KS = 8
   MaxLen = 3
 INVARIANTS Emit
 CHECK_DEADLOCK FALSE
